@@ -50,12 +50,13 @@ func c01Policies(thorough bool) []policy {
 		a, d, g bool
 	}
 	rules := []rs{{"addr", true, false, false}, {"grp", false, false, true}, {"dom+grp", false, true, true}, {"addr+dom+grp", true, true, true}}
-	skips := [][]string{nil, {`^/public/`, `/public2/`}}
+	// (the third list: an inline flag in an earlier pattern must not carry over into a later one)
+	skips := [][]string{nil, {`^/public/`, `/public2/`}, {`(?i)^/healthz$`, `^/public/`}}
 	pre := []bool{false}
 	if thorough {
 		rules = []rs{{"addr", true, false, false}, {"dom", false, true, false}, {"grp", false, false, true}, {"addr+dom", true, true, false},
 			{"addr+grp", true, false, true}, {"dom+grp", false, true, true}, {"addr+dom+grp", true, true, true}}
-		skips = [][]string{nil, {`^/public/`}, {`^/public/`, `/public2/`}}
+		skips = [][]string{nil, {`^/public/`}, {`^/public/`, `/public2/`}, {`(?i)^/healthz$`, `^/public/`}}
 		pre = []bool{false, true}
 	}
 	var out []policy
@@ -79,7 +80,7 @@ func c01Policies(thorough bool) []policy {
 	return out
 }
 
-var c01Paths = []string{"/", "/private", "/public/x", "/publicx", "/x/public2/y", "/public/..%2fprivate", "/private?/public/", "/private?next=/public2/", "/private%23/public/", "/oauth2/auth", "/favicon.ico", "/PUBLIC/x"}
+var c01Paths = []string{"/", "/private", "/public/x", "/publicx", "/x/public2/y", "/public/..%2fprivate", "/private?/public/", "/private?next=/public2/", "/private%23/public/", "/oauth2/auth", "/favicon.ico", "/PUBLIC/x", "/HealthZ"}
 
 func proxyYAML(p policy) string {
 	return "- service: svca\n  default:\n    from: " + hostA + "\n    to: {{backend:a}}\n    options:\n" + p.yamlOptions("      ") +
